@@ -103,3 +103,38 @@ Theorem C16_read_pool_independent : forall ps lim input,
   read_frame_with_size (match lim with Some m => m | None => c_defaultMaxLen end) input.
 Proof. exact read_pool_independent. Qed.
 Print Assumptions C16_read_pool_independent.
+
+(* ---------------------------------------------------------------------------------------
+   The HPACK half of C16 ("each step consumes input or fails, output is bounded by input",
+   never panics on arbitrary bytes): the theorems are C03's, restated here so that the
+   property's file carries everything it claims. Proofs: Proofs/HpackTotal.v, HpackBlock.v. *)
+From H2V Require Import Impl.Hpack Proofs.HpackDefs Proofs.HpackTotal Proofs.HpackBlock.
+
+(* for every byte string (any list of N, no range hypothesis), decoding a field never panics *)
+Theorem C16_hpack_next_field_total :
+  forall st hf blockStart fp b, is_panic (nf_res (next_field st hf blockStart fp b)) = false.
+Proof. exact HpackTotal.next_field_no_panic. Qed.
+Print Assumptions C16_hpack_next_field_total.
+
+(* ... nor does the header-block loop over any sequence of HEADERS / CONTINUATION frames *)
+Theorem C16_hpack_block_total :
+  forall st frs, is_panic (block_decode_frames st frs) = false.
+Proof. exact HpackTotal.block_decode_frames_no_panic. Qed.
+Print Assumptions C16_hpack_block_total.
+
+(* each step consumes input or fails *)
+Theorem C16_hpack_progress :
+  forall st hf blockStart fp b rest decoded, b <> [] ->
+    nf_res (next_field st hf blockStart fp b) = Ok (rest, decoded) ->
+    (length rest < length b)%nat /\ exists consumed, b = consumed ++ rest.
+Proof. exact HpackBlock.next_field_progress. Qed.
+Print Assumptions C16_hpack_progress.
+
+(* output is bounded by input (and the table) *)
+Theorem C16_hpack_output_bounded :
+  forall st b fs st', bytes_ok b = true -> table_ok st -> block_small st b ->
+    block_decode st b = Ok (fs, st') ->
+    (length fs <= length b)%nat /\
+    Forall (fun f => len (f_key f) + len (f_value f) + 32 <= N.max (h_max_settings st) 64 + 2 * len b + 32) fs.
+Proof. exact HpackBlock.output_bounded. Qed.
+Print Assumptions C16_hpack_output_bounded.
